@@ -122,11 +122,15 @@ def strategy_script(world, sname, n_bars):
     ctx = _fresh0(world)
     kit_ops = [o.label for o in world.alphabet(kit.replay_history(lambda: _fresh0(world), world.alphabet, root)[0]) if not o.deviation]
     if sname == "every-bar":
-        lab = kit_ops[0] if kit_ops else None
-        lab2 = kit_ops[-1] if kit_ops else None
+        # cycles through the first and last default operation and, where the market has them, a mark-capped and a limit-priced option order
+        all_labels = [o.label for o in world.alphabet(kit.replay_history(lambda: _fresh0(world), world.alphabet, root)[0])]
+        cyc = ([kit_ops[0], kit_ops[-1]] if kit_ops else []) + [l for l in all_labels if l.endswith(("buy[C1,1,cap3]", "buy[C1,2,L0]", "sell[C1,1,cap3]"))]
         sc = list(base)
         for b in range(1, n_bars):
-            sc.append((b, "on_bar" if b % 2 else "after_bar", lab if b % 2 else lab2))
+            if cyc:
+                sc.append((b, "on_bar" if b % 2 else "after_bar", cyc[(b - 1) % len(cyc)]))
+        if n_bars > 30:  # hourly market beside a minutely one: make sure the option orders land on the open bar too
+            sc += [(60, "on_bar", l) for l in cyc[2:]]
         return sc, None
     if sname == "data-dependent":
         lab_up, lab_dn = (kit_ops[0], kit_ops[-1]) if kit_ops else (None, None)
